@@ -35,7 +35,9 @@ struct Ev {
 
 #[derive(Clone, Copy, PartialEq, Eq, Debug)]
 pub struct Shape {
-    /// 0 = ArcMutex, 1 = ArcRwLock
+    /// 0 = ArcMutex, 1 = ArcRwLock, 2 = PtrMutex, 3 = PtrRwLock (a pointer to the lock inside the shared
+    /// Arc, which the scenario keeps alive: what `static_mutex_reference!` / `static_rw_lock_reference!`
+    /// build over a static)
     variant: u8,
     threads: usize,
     ops: usize,
@@ -51,7 +53,7 @@ pub struct Shape {
 impl Shape {
     fn from_id(id: u64) -> Shape {
         Shape {
-            variant: (id % 2) as u8,
+            variant: (id % 2) as u8 + 2 * ((id / 672) % 2) as u8,
             threads: 2 + ((id / 2) % 7) as usize,
             ops: 1 + ((id / 14) % 6) as usize,
             mix: ((id / 84) % 4) as u8,
@@ -59,7 +61,7 @@ impl Shape {
         }
     }
     fn id(&self) -> u64 {
-        self.variant as u64 + 2 * (self.threads as u64 - 2) + 14 * (self.ops as u64 - 1) + 84 * self.mix as u64 + 336 * self.own as u64
+        (self.variant % 2) as u64 + 2 * (self.threads as u64 - 2) + 14 * (self.ops as u64 - 1) + 84 * self.mix as u64 + 336 * self.own as u64 + 672 * (self.variant / 2) as u64
     }
 }
 
@@ -106,10 +108,12 @@ fn linearizable(evs: &[Ev]) -> bool {
 }
 
 fn make_ref(variant: u8, am: &Arc<Mutex<Cell>>, ar: &Arc<RwLock<Cell>>) -> Reference<Cell> {
-    if variant == 0 {
-        Reference::from_arc_mutex(am.clone())
-    } else {
-        Reference::from_arc_rw_lock(ar.clone())
+    match variant {
+        0 => Reference::from_arc_mutex(am.clone()),
+        1 => Reference::from_arc_rw_lock(ar.clone()),
+        // the pointee lives inside the Arc, which every holder of such a Reference keeps alive
+        2 => unsafe { Reference::from_ptr_mutex(Arc::as_ptr(am)) },
+        _ => unsafe { Reference::from_ptr_rw_lock(Arc::as_ptr(ar)) },
     }
 }
 
@@ -122,6 +126,8 @@ fn scenario(shape: Shape) {
     let base = make_ref(shape.variant, &am, &ar);
     let weak = shape.own == 1;
     let (wm, wr) = (Arc::downgrade(&am), Arc::downgrade(&ar));
+    // a pointer-variant Reference owns nothing: the scenario itself keeps the locks alive
+    let _keep = if shape.variant >= 2 { Some((am.clone(), ar.clone())) } else { None };
     // in weak mode `base` holds the only strong count of the variant under test
     let (am, ar) = if weak {
         drop(am);
@@ -143,8 +149,16 @@ fn scenario(shape: Shape) {
             let build = || -> Reference<Cell> {
                 let own = match (&am2, &ar2) {
                     (Some(m), Some(r)) => make_ref(shape.variant, m, r),
-                    _ if shape.variant == 0 => Reference::from_arc_mutex(wm2.upgrade().expect("C17 liveness: the target died while a Reference to it exists")),
-                    _ => Reference::from_arc_rw_lock(wr2.upgrade().expect("C17 liveness: the target died while a Reference to it exists")),
+                    // (weak mode: the spawning thread's `base` keeps the target alive throughout, so a
+                    //  pointer taken from a momentarily upgraded Arc stays valid)
+                    _ if shape.variant % 2 == 0 => {
+                        let a = wm2.upgrade().expect("C17 liveness: the target died while a Reference to it exists");
+                        if shape.variant == 0 { Reference::from_arc_mutex(a) } else { unsafe { Reference::from_ptr_mutex(Arc::as_ptr(&a)) } }
+                    }
+                    _ => {
+                        let a = wr2.upgrade().expect("C17 liveness: the target died while a Reference to it exists");
+                        if shape.variant == 1 { Reference::from_arc_rw_lock(a) } else { unsafe { Reference::from_ptr_rw_lock(Arc::as_ptr(&a)) } }
+                    }
                 };
                 if shape.mix == 3 {
                     own.clone()
@@ -304,8 +318,11 @@ fn main() {
                 } else if si < 6 {
                     // ... and the sole-strong-owner arrangement for both lock kinds
                     Shape { variant: (si % 2) as u8, threads: 2, ops: 4, mix: 1, own: 1 }
+                } else if si < 8 {
+                    // ... and the pointer-to-lock variants under contention
+                    Shape { variant: 2 + (si % 2) as u8, threads: 3, ops: 4, mix: 0, own: 0 }
                 } else {
-                    Shape::from_id((sm >> 20) % 672)
+                    Shape::from_id((sm >> 20) % 1344)
                 };
                 for sched in 0..6u32 {
                     // shuttle keeps one persistence directory per process: list it before and after
